@@ -80,7 +80,8 @@ out = ["### 11.6 Seeded changes and which check reports them\n",
        "  longer leads back to Set_Prm when Station_Not_Ready is also set → C07 `b.prm-req`; C07-6 the diagnostics helper rejects a reply whose extended part does not fit",
        "  → C07 `b.diag-accept` (closed world of rejection reasons); C07-4 reported by `d.diag` as built.  C06-1..3 (two agents after C06 was claimed): C06-1 → C12 `e.reply`",
        "  both-ready-states, C06-3 → C06 imports C01 `b.sync-pause`, C06-2 reported by the imported C12.a; C06-4..6 (two more agents): C06-4 and C06-6 reported by C06.a / C06.b as",
-       "  built, C06-5 → C06 imports the hold-time clauses of C13 (`g.token-released`).",
+       "  built, C06-5 → C06 imports the hold-time clauses of C13 (`g.token-released`).  C02-1 (two agents after C02 was claimed; both delivered the same change as C06-1 and",
+       "  reported that every other candidate in `token_ring.rs` / the witnessing sites was caught by the existing tests or self-healing): reported by the imported C12 `e.reply`.",
        "* an observation outside a property's scope: the RP2040 PHY (feature `phy-rp2040`) drops the whole receive buffer on a partial drop (acknowledged TODO in its",
        "  source); C16 quantifies over the generic helpers on the simulator/harness PHYs, so this is recorded under `not_decided` in the thorough evidence, not reported.\n",
        "| seed | mechanism | change | applied as | check | first reporting clause |", "|---|---|---|---|---|---|"]
